@@ -103,6 +103,10 @@ mod types;
 
 /// All functionality is covered by traits, such that consumers can utilize trait objects as desired.
 pub mod traits;
+
+/// Verification-only wrappers over crate-private kernels (feature `verif-hooks`, off by default).
+#[cfg(feature = "verif-hooks")]
+pub mod verif_hooks;
 pub use crate::types::Ph;
 
 // Applies across all security parameter sets
